@@ -609,3 +609,24 @@ def main(spec, argv=None):
           % (pid, tier, seed, cov["evaluations"], cov["distinct_nontrivial"], json.dumps(cov["noise"]), json.dumps(excl),
              len(camp.flaky), " INCONCLUSIVE(wall limit)" if camp.inconclusive else "", time.time() - t0))
     return 0
+
+
+def install_extra_findings():
+    """development aid for hy checks of this area: let engine.load_known also read the findings files named in
+    env VERIF_EXTRA_FINDINGS (entries not yet merged into known_findings.json)"""
+    extra = os.environ.get("VERIF_EXTRA_FINDINGS")
+    if not extra:
+        return
+    orig = engine.load_known
+
+    def patched():
+        out = list(orig())
+        have = {k["id"] for k in out}
+        for p in extra.split(":"):
+            with open(p) as f:
+                data = json.load(f)
+            for k in (data["findings"] if isinstance(data, dict) else data):
+                if k["id"] not in have:
+                    out.append(k)
+        return out
+    engine.load_known = patched
